@@ -9,7 +9,7 @@ for d in "$@"; do
   ( cd "$wt"; PYTHONPATH="$wt" /venv/bin/python "$d/demo.py" >/dev/null 2>&1 ); clean=$?
   if git -C "$wt" apply "$d/patch.diff"; then applies=true; else applies=false; fi
   ( cd "$wt"; PYTHONPATH="$wt" /venv/bin/python "$d/demo.py" >/dev/null 2>&1 ); mutated=$?
-  tests=$(cd "$wt" && env -u SYMPLYPHYSICS_VERIF /venv/bin/python -m pytest -q -p no:cacheprovider -n 8 2>&1 | tail -1)
+  tests=$(cd "$wt" && env -u SYMPLYPHYSICS_VERIF /venv/bin/python -m pytest -q -p no:cacheprovider -n 12 2>&1 | tail -1)
   head=$(git -C /repo rev-parse --short HEAD)
   printf '{"repo_head": "%s", "patch_applies": %s, "demo_exit_without_change": %s, "demo_exit_with_change": %s, "test_suite_with_change": "%s"}\n' \
      "$head" "$applies" "$clean" "$mutated" "$tests" > "$d/confirm.json"
